@@ -4,7 +4,7 @@ Tie: T-gen step tables (lean/Netpoll/Tie/Shard.lean) + T-sched: the REAL mux.Sha
 with one schedule point per atomic step, run under a controlled scheduler over systematically enumerated and random
 schedules; `npdriver shard` replays every trace through the Lean `step` (site + full shared state after every step)
 and evaluates the spec on the implementation's own observations."""
-import json, os, shutil
+import glob, json, os, shutil
 import common, shardrun
 
 LEVEL = 'proof'
@@ -12,21 +12,27 @@ PROP = 'C17'
 MANIFEST = dict(
    text='Lean 4 theorems over an interleaving model of mux.ShardQueue with one model step per atomic step of shard_queue.go '
         '(any number of concurrent Add and Close calls, any number of shards, every schedule): each getter invoked at most once, '
-        'single worker, locks exclusive, ring never overwrites an unconsumed entry, and at quiescence of an in-contract run '
-        'trigger = 0, all shards empty and every getter not ignored was invoked exactly once and flushed; Adds after Close ignored. '
-        'The Close-ordering clause is proved only in a partial form and the unchanged code violates the full clause (two witnesses, known findings). '
-        'The model is tied to /repo on every run by regenerated per-function step tables (kernel-checked equality with the model\'s program counters) '
+        'single worker, locks exclusive, ring never overwrites an unconsumed entry, and at quiescence '
+        'trigger = 0, all shards empty and every getter not ignored was invoked exactly once and flushed; Adds after Close ignored; '
+        'Close waits: when Close returns nil every getter of every Add that had returned by the time of its CAS has been invoked '
+        '(C17_close_waits, a statement about the whole run, no side condition on Adds in flight). '
+        'Add() without getters and the int32 wrap of idx are in contract (the four defects the earlier version recorded as findings are '
+        'repaired in /repo; the model mirrors the repaired code; the failing histories are corpus replays). '
+        'The model is tied to /repo on every run by regenerated per-function step tables and the two local computations of Add '
+        '(kernel-checked equality with the model\'s program counters / expected text) '
         'and by trace conformance of the real, build-time instrumented ShardQueue under a controlled scheduler '
         '(site and all shared words compared after every atomic step), with the spec evaluated on the implementation\'s observations.',
    note='Trusted: Lean kernel; axioms propext/Classical.choice/Quot.sound; tools/extract (site analysis + instrumenter: a sync/atomic call is replaced by a '
         'wrapper that parks and then performs the same call, plain-access runs / mutex ops / RunTask get a parking statement in front); the scheduler harness '
         '(go/inpkg_mux/shard.go: stub connection, runner.RunTask replaced by go f()); the npdriver trace parser. Correspondence is sampling of schedules '
-        '(systematic up to a preemption bound for small scenarios + seeded random walks). Assumed: sequentially consistent sync/atomic; a maximal run of plain '
+        '(systematic up to a preemption bound for small scenarios + seeded random walks; a Close call whose wait loop has failed once is not scheduled for '
+        'another pass while a shard is non-empty or trigger != 0). Assumed: sequentially consistent sync/atomic; a maximal run of plain '
         'accesses between two sync operations is one step (justified by the proved lock / single-worker / ring-slot exclusions); RunTask runs its task once, '
-        'asynchronously; fair scheduling for termination (no variant theorem: quiescence is stated, termination is not proved). '
-        'Out of contract (witness theorems + known findings): Add() with zero getters, more than 2^31 Adds (int32 idx wraps), NewShardQueue(0).',
-   technique='Lean 4 invariant proof over an interleaving model (list of adder-local states, counter abstraction for tail workers and closers) '
-             '+ T-gen step tables + controlled-scheduler trace conformance on the real code', design='§6 C17')
+        'asynchronously; fair scheduling for termination (a variant and no-deadlock are proved, termination under fairness is not). '
+        'Close waits is about getters being invoked, not flushed: the worker\'s Flush may follow the return of Close. '
+        'Out of contract: NewShardQueue(0).',
+   technique='Lean 4 invariant proof over an interleaving model (list of adder-local states, counter abstraction for tail workers and Close calls before their CAS, '
+             'one slot for the Close call that won it) + T-gen step tables + controlled-scheduler trace conformance on the real code', design='§6 C17')
 MODULES = ['Netpoll.Props.C17', 'Netpoll.Tie.Shard']
 MIRRORED = ('mux.ShardQueue.', 'mux.NewShardQueue')
 
@@ -62,9 +68,12 @@ def jobs_for(tier, seed, escalate):
     dfs('s2a2apperr', '-size 2 -adders 2,1 -apperr 1', 2)
     dfs('s2a2flusherr', '-size 2 -adders 1,1 -closers 1 -flusherr 1', 2)
     dfs('s3a4', '-size 3 -adders 1,1,1,1', 1, P)
-    # out of contract: conformance of the model's quirks (empty Add, idx wrap)
-    dfs('ooc-empty', '-size 2 -adders 1,0,1,0', 1)
-    dfs('ooc-wrap', '-size 2 -adders 1,1,1 -idx0 2147483646', 1)
+    # Add() without getters, the int32 wrap of idx (2 shards: 2^31-2; 3 shards: the uint32 wrap, where the round robin skips), Close during both
+    dfs('s2a4empty', '-size 2 -adders 1,0,1,0', 1)
+    dfs('s2a3emptyc1', '-size 2 -adders 0,1,0 -closers 1', 2)
+    dfs('s2a3wrap', '-size 2 -adders 1,1,1 -idx0 2147483646', 1)
+    dfs('s3a3wrapu', '-size 3 -adders 1,1,1 -idx0 -2 -closers 1', 1)
+    dfs('s2a2c2', '-size 2 -adders 1,1 -closers 2', 2, P)
     rnd('r-s2a4c1', '-size 2 -adders 1,1,2,1 -closers 1', 8000 if big else 700, 8 if big else 2)
     rnd('r-s3a6', '-size 3 -adders 1,2,1,1,1,1', 6000 if big else 500, 8 if big else 2)
     rnd('r-s2a8wrap', '-size 2 -adders 1,1,1,1,1,1,1,1 -closers 1', 4000 if big else 300, 4 if big else 1)
@@ -77,31 +86,19 @@ def stress_jobs(tier, seed):
             for i, sc in enumerate(['-size 1 -adders 1,1,1 -closers 1', '-size 2 -adders 1,2,1 -closers 1', '-size 2 -adders 1,1,1,1,1,1',
                                     '-size 3 -adders 2,1,1,1', '-size 2 -adders 1,1,1 -closers 2 -die', '-size 4 -adders 1,1,1,1,1,1,1,1'])]
 
-# known findings: explicit schedules that exhibit them (hooks mode)
-PROBES = [
-    ('empty-add', '-size 2 -adders 1,0,1,0', 'A0*,A1*,A2*,A3*,W0*'),
-    ('idx-wrap', '-size 2 -adders 1,1,1 -idx0 2147483646', 'A0*,A1*,A2*'),
-    ('close-early-inflight', '-size 1 -adders 1,1 -closers 1', 'A0,A0,A0,A0,A0,A1*,C0*'),
-    ('close-early-stale', '-size 1 -adders 1,1 -closers 1', 'A0*,' + ','.join(['W0'] * 12) + ',A1*,C0,C0,C0,W0,C0*'),
-]
+def corpus_files():
+    return sorted(glob.glob(os.path.join(common.VERIF, 'corpus', PROP, '*.sched')))
 
-def run_probes(binary, wd):
-    out = {}
-    for name, scen, sched in PROBES:
-        r = shardrun.run_one(binary, wd, 'probe-' + name, scen.split() + ['-mode', 'replay', '-sched', sched])
-        lines = shardrun.run_lines(r['trace'], 0) if os.path.exists(r['trace']) else []
-        last = [l for l in lines if l.startswith('s ')][-1:] or ['']
-        if name == 'empty-add':
-            g = [t for t in last[0].split() if t.startswith('g=')]
-            inv = [t for t in last[0].split() if t.startswith('inv=')]
-            rep = bool(g) and g[0] != 'g=0,0' and inv == ['inv=-'] and any(l.startswith('end 0 quiescent') for l in lines)
-        elif name == 'idx-wrap':
-            rep = any(l.startswith('ret A2 panic') for l in lines)
-        elif name == 'close-early-inflight':
-            rep = int(r['dsum'].get('kf_close_early', 0) or 0) > 0
-        else:
-            rep = int(r['dsum'].get('kf_close_stale', 0) or 0) > 0
-        out[name] = dict(reproduces=rep, conf_fail=len(r['conf_fail']), spec_fail=[s for _, s in r['spec_fail']][:2])
+def run_corpus(binary, wd):
+    """the schedules that failed before a fix (corpus/C17/*.sched, same format as a replay file), replayed first"""
+    out = []
+    for f in corpus_files():
+        flags, sched = shardrun.parse_replay(f)
+        if flags is None:
+            continue
+        r = shardrun.run_one(binary, wd, 'corpus-' + os.path.splitext(os.path.basename(f))[0], flags + ['-mode', 'replay', '-sched', sched or ''])
+        r['corpus'] = os.path.basename(f)
+        out.append(r)
     return out
 
 def run(rep, prop=PROP):
@@ -127,14 +124,19 @@ def run(rep, prop=PROP):
     rep.assumptions += ['A-go-mm: sync/atomic operations are sequentially consistent; a maximal run of plain accesses between two synchronisation operations acts as one step',
                         'A-runtask: runner.RunTask runs the task exactly once, asynchronously (harness: go f())',
                         'A-sched-fair: every enabled goroutine is eventually scheduled (termination is not proved, only quiescence is characterised)',
-                        'contract: size > 0, every Add carries at least one getter, fewer than 2^31 Adds (violations are witness theorems + known findings)',
+                        'contract: size > 0 (NewShardQueue(0) divides by zero in Add)',
                         'stub connection: IsActive/Append/Flush of the harness stub; Append error and Flush error close the connection']
     if mode == 'hooks':
+        corpus = run_corpus(binary, wd)
         results = shardrun.run_many(binary, wd, jobs_for(rep.tier, rep.seed, escalate))
-        probes = run_probes(binary, wd)
     else:
+        corpus = []
         results = shardrun.run_many(binary, wd, stress_jobs(rep.tier, rep.seed), nomodel=True)
-        probes = {}
+    # a corpus schedule that does not apply to this tree any more (rc 2: the code takes different steps) is only noted
+    stale = [r['corpus'] for r in corpus if r['rc'] == 2 and not r['spec_fail']]
+    if stale:
+        rep.notes.append('corpus schedules that do not apply to this tree (the code takes different steps): ' + ', '.join(stale))
+    results = [r for r in corpus if r['corpus'] not in stale] + results
     broken = [r for r in results if r['rc'] != 0 or not r['dsum']]
     runs = sum(int(r['dsum'].get('runs', 0) or 0) for r in results)
     sites = {}
@@ -153,19 +155,16 @@ def run(rep, prop=PROP):
     rep.cov['steps_compared'] = sum(int(r['dsum'].get('lines', 0) or 0) for r in results)
     rep.cov['sites_hit'] = sites
     allsites = ['Add#0', 'Add#1', 'Add#2', 'lock#0', 'unlock#0', 'triggering#0', 'triggering#1', 'triggering#2', 'triggering#3'] + \
-               ['foreach#%d' % i for i in range(10)] + ['Close#%d' % i for i in range(4)] + ['conn.IsActive', 'getter', 'conn.Flush', 'die']
+               ['foreach#%d' % i for i in range(9)] + ['Close#0', 'Close#1', 'drained#0', 'drained#1'] + ['conn.IsActive', 'getter', 'conn.Flush', 'die']
     rep.cov['sites_never_hit'] = [s for s in allsites if s not in sites] if mode == 'hooks' else ['(stress mode: no sites)']
     rep.cov['traces_validated_against_impl'] = runs - len(conf_fail) if mode == 'hooks' else 0
     rep.cov['quiescent_runs'] = sum(int(r['dsum'].get('quiescent', 0) or 0) for r in results)
-    rep.cov['out_of_contract_runs'] = sum(int(r['dsum'].get('out_of_contract', 0) or 0) for r in results)
-    rep.cov['known_finding_hits'] = dict(close_early_inflight=sum(int(r['dsum'].get('kf_close_early', 0) or 0) for r in results),
-                                         close_early_stale=sum(int(r['dsum'].get('kf_close_stale', 0) or 0) for r in results))
-    rep.cov['known_finding_probes'] = probes
+    rep.cov['runs_in_which_close_returned_nil'] = sum(int(r['dsum'].get('close_nil', 0) or 0) for r in results)
+    rep.cov['corpus'] = [dict(file=r['corpus'], runs=r['dsum'].get('runs'), conf_fail=len(r['conf_fail']), spec_fail=len(r['spec_fail'])) for r in corpus]
     rep.cov['jobs'] = [dict(name=r['name'], flags=' '.join(r['flags']), runs=r['dsum'].get('runs'), t_harness=r.get('t_harness'), t_driver=r.get('t_driver')) for r in results]
     rep.cov['samples'] = []
-    for r in results[:2]:
-        if r.get('sample'):
-            rep.cov['samples'].append(dict(job=r['name'], flags=' '.join(r['flags']), run0=r['sample']))
+    for r in [r for r in results if r.get('sample')][:2]:
+        rep.cov['samples'].append(dict(job=r['name'], flags=' '.join(r['flags']), run0=r['sample']))
     # ---- verdict
     if spec_fail:
         r, k, m = spec_fail[0]
@@ -182,15 +181,9 @@ def run(rep, prop=PROP):
     elif proof_broken:
         rep.violation('proof obligation broken and no failing schedule found in %d schedules: %s' % (runs, proof_broken),
                       ['# ' + l for l in proof_broken.split('\n')], no_input=True)
-    elif mode == 'hooks':
-        bad = [n for n, p in probes.items() if p['conf_fail']]
-        if bad:
-            rep.violation('model does not follow the implementation on the known-finding probe(s) ' + ', '.join(bad), ['# probes: ' + json.dumps(probes)], no_input=True)
     for kf in common.known_findings(prop):
         if kf.get('status') == 'finding':
-            p = probes.get(kf.get('probe', ''), None)
-            tail = '' if p is None else (' [probe %s: %s]' % (kf['probe'], 'reproduces' if p['reproduces'] else 'does NOT reproduce any more'))
-            print('KNOWN-FINDING: property=%s %s%s' % (prop, kf['what'], tail))
+            print('KNOWN-FINDING: property=%s %s' % (prop, kf['what']))
 
 def replay(rep, path):
     flags, sched = shardrun.parse_replay(path)
